@@ -43,6 +43,8 @@ const (
 	xDot
 	xUn
 	xBin
+	xCond  // a ? b : c   (a = test, b = yes, c = no)
+	xIndex // a[b]
 )
 
 type xexpr struct {
@@ -51,6 +53,7 @@ type xexpr struct {
 	f     string // regexp flags
 	op    js_ast.OpCode
 	a, b  *xexpr
+	c     *xexpr
 	value float64
 }
 
@@ -74,6 +77,10 @@ func (e *xexpr) coq() string {
 		return "(EDot " + e.a.coq() + " " + CBytes([]byte(e.s)) + ")"
 	case xUn:
 		return "(EUn " + coqOpNames[e.op] + " " + e.a.coq() + ")"
+	case xCond:
+		return "(ECond " + e.a.coq() + " " + e.b.coq() + " " + e.c.coq() + ")"
+	case xIndex:
+		return "(EIndex " + e.a.coq() + " " + e.b.coq() + ")"
 	default:
 		return "(EBin " + coqOpNames[e.op] + " " + e.a.coq() + " " + e.b.coq() + ")"
 	}
@@ -118,6 +125,10 @@ func (tb *treeBuilder) build(e *xexpr) js_ast.Expr {
 		return js_ast.Expr{Data: &js_ast.ERegExp{Value: "/" + e.s + "/" + e.f}}
 	case xDot:
 		return js_ast.Expr{Data: &js_ast.EDot{Target: tb.build(e.a), Name: e.s}}
+	case xCond:
+		return js_ast.Expr{Data: &js_ast.EIf{Test: tb.build(e.a), Yes: tb.build(e.b), No: tb.build(e.c)}}
+	case xIndex:
+		return js_ast.Expr{Data: &js_ast.EIndex{Target: tb.build(e.a), Index: tb.build(e.b)}}
 	case xUn:
 		return js_ast.Expr{Data: &js_ast.EUnary{Op: e.op, Value: tb.build(e.a), WasOriginallyTypeofIdentifier: true, WasOriginallyDeleteOfIdentifierOrPropertyAccess: true}}
 	default:
@@ -166,7 +177,7 @@ func genNum(r *Rng) *xexpr {
 // chooses the division goal after "++"/"--" (documented restriction of the
 // modelled fragment), so update targets never start with a regular expression
 func leftmostIsRegex(e *xexpr) bool {
-	for e.k == xDot {
+	for e.k == xDot || e.k == xIndex {
 		e = e.a
 	}
 	return e.k == xRe
@@ -177,6 +188,9 @@ func genTarget(r *Rng, depth int) *xexpr {
 		base := genTree(r, depth-1)
 		if leftmostIsRegex(base) {
 			base = &xexpr{k: xId, s: identPool[r.Intn(nTargetIdents)]}
+		}
+		if r.Chance(35) {
+			return &xexpr{k: xIndex, a: base, b: genTree(r, depth-1)}
 		}
 		return &xexpr{k: xDot, a: base, s: r.Pick(propPool)}
 	}
@@ -204,7 +218,11 @@ func genTree(r *Rng, depth int) *xexpr {
 			return &xexpr{k: xRe, s: r.Pick(reBodies), f: r.Pick(reFlags)}
 		}
 	}
-	switch r.Intn(10) {
+	switch r.Intn(13) {
+	case 10, 11:
+		return &xexpr{k: xCond, a: genTree(r, depth-1), b: genTree(r, depth-1), c: genTree(r, depth-1)}
+	case 12:
+		return &xexpr{k: xIndex, a: genTree(r, depth-1), b: genTree(r, depth-1)}
 	case 0:
 		return &xexpr{k: xDot, a: genTree(r, depth-1), s: r.Pick(propPool)}
 	case 1, 2, 3:
@@ -289,6 +307,25 @@ func gluingGrid() []*xexpr {
 		}
 	}
 	out = append(out, un(js_ast.UnOpTypeof, id("a\U00010000")), &xexpr{k: xDot, a: id("a\U00010000"), s: "e"}, bin(js_ast.BinOpIn, un(js_ast.UnOpVoid, id("a\U00010000")), id("x1\U00020000")))
+	// conditional and index access in every operand position that decides about parentheses
+	cond := func(a, b, c *xexpr) *xexpr { return &xexpr{k: xCond, a: a, b: b, c: c} }
+	idx := func(a, b *xexpr) *xexpr { return &xexpr{k: xIndex, a: a, b: b} }
+	abc := cond(id("a"), id("b"), id("c"))
+	out = append(out, abc, cond(abc, abc, abc), cond(bin(js_ast.BinOpAssign, id("a"), id("b")), bin(js_ast.BinOpAssign, id("a"), id("b")), bin(js_ast.BinOpAssign, id("a"), id("b"))),
+		cond(bin(js_ast.BinOpComma, id("a"), id("b")), bin(js_ast.BinOpComma, id("a"), id("b")), bin(js_ast.BinOpComma, id("a"), id("b"))),
+		cond(bin(js_ast.BinOpNullishCoalescing, id("a"), id("b")), un(js_ast.UnOpNot, id("b")), &xexpr{k: xRe, s: "x", f: "g"}),
+		cond(&xexpr{k: xNum, s: "1", value: 1}, &xexpr{k: xNum, s: "2", value: 2}, &xexpr{k: xNum, s: "3", value: 3}),
+		cond(un(js_ast.UnOpPostInc, id("a")), un(js_ast.UnOpPreDec, id("b")), un(js_ast.UnOpNeg, id("c"))),
+		un(js_ast.UnOpNot, abc), un(js_ast.UnOpTypeof, abc), &xexpr{k: xDot, a: abc, s: "e"}, idx(abc, abc), idx(id("a"), bin(js_ast.BinOpComma, id("b"), id("c"))),
+		idx(&xexpr{k: xNum, s: "1", value: 1}, id("a")), idx(&xexpr{k: xRe, s: "x", f: ""}, &xexpr{k: xNum, s: "0", value: 0}), idx(un(js_ast.UnOpPostInc, id("a")), id("b")),
+		un(js_ast.UnOpPostInc, idx(id("a"), id("b"))), un(js_ast.UnOpPreInc, idx(id("a"), id("b"))), idx(idx(id("a"), id("b")), id("c")), &xexpr{k: xDot, a: idx(id("a"), id("b")), s: "e"}, idx(&xexpr{k: xDot, a: id("a"), s: "e"}, id("b")),
+		bin(js_ast.BinOpAssign, idx(id("a"), id("b")), abc), bin(js_ast.BinOpAddAssign, idx(id("a"), id("b")), id("c")), bin(js_ast.BinOpPow, idx(id("a"), id("b")), un(js_ast.UnOpNeg, id("c"))))
+	for _, b := range bins {
+		out = append(out, bin(b, id("x"), abc))
+		if b < js_ast.BinOpAssign {
+			out = append(out, bin(b, abc, id("x")))
+		}
+	}
 	out = append(out, un(js_ast.UnOpTypeof, &xexpr{k: xRe, s: "x", f: ""}), un(js_ast.UnOpVoid, un(js_ast.UnOpTypeof, id("a"))), un(js_ast.UnOpTypeof, un(js_ast.UnOpNeg, id("a"))))
 	return out
 }
@@ -407,6 +444,10 @@ func idOnly(e *xexpr) bool {
 		return false
 	case xDot:
 		return idOnly(e.a)
+	case xCond:
+		return idOnly(e.a) && idOnly(e.b) && idOnly(e.c)
+	case xIndex:
+		return idOnly(e.a) && idOnly(e.b)
 	case xUn:
 		// typeof/void have a known type, which lets the parser simplify "??", "!" and "||" around them
 		return e.op != js_ast.UnOpTypeof && e.op != js_ast.UnOpVoid && idOnly(e.a)
